@@ -106,6 +106,30 @@ def r06b(ctx):
                     srcs = [e_ for (_, _, e_) in ab.flow.sources(x)]
                     ok = ok and bool(srcs) and all(flow.mentions(e_, lambda z: z[0] == 'param' and z[1] == 1) for e_ in srcs)
         ctx.check(found >= 1 and ok, 'R06b', s, 'leaf', '-', 'each leaf is added as (hash, length) of one input element')
+        # ... and what is merged is exactly the sequence of nodes returned for the input elements (one per element, in
+        # order) — not something read back from the node store, which holds each distinct node once
+        ab = an(b)
+        mg = [c for c in ab.calls() if sg(ab.term(c).get('fn', '')).split('::')[-1] in ('merge_to_file', 'merge_to_cas')]
+        okm = False
+        if len(mg) == 1:
+            nodes = ab.arg(mg[0], 1)
+            # closure form: collect(map(iter(chunks), |..| maybe_add_node(..).0))
+            for z in flow.subtrees(nodes):
+                if z[0] == 'agg' and z[1] == 'closure' and z[2] in F.bodies:
+                    ac = an(F.bodies[z[2]])
+                    rr = [e_ for (_, _, _, e_) in ac.ret_sites()]
+                    if len(rr) == 1 and ac.root_call(rr[0]) is not None and sg(ac.root_call(rr[0])[1]).endswith('maybe_add_node') and flow.mentions(nodes, lambda y: y[0] == 'param' and y[1] == 1):
+                        okm = True
+            # loop form: nodes is a vector into which the loop pushes maybe_add_node(..).0
+            if not okm:
+                base = nodes
+                while base[0] in ('index', 'slice'):
+                    base = base[1]
+                pushes = [p_ for p_ in ab.calls('alloc::vec::Vec::push') if ab.arg(p_, 0) == base]
+                okm = len(pushes) == 1 and ab.root_call(ab.arg(pushes[0], 1)) is not None and sg(ab.root_call(ab.arg(pushes[0], 1))[1]).endswith('maybe_add_node') \
+                    and c05.loop_of(ab, pushes[0]) is not None and c05.loop_of(ab, ab.root_call(ab.arg(pushes[0], 1))[3]) == c05.loop_of(ab, pushes[0])
+        ctx.check(okm, 'R06b', s, 'merged nodes', ab.loc(mg[0]) if mg else '-', 'the merged node list is the list of nodes returned by maybe_add_node for the input elements, in input order',
+                  'the nodes that are merged are not the nodes returned for the input elements (e.g. read back from the node store, which keeps each distinct node once): repeated chunks drop out of the aggregate hash')
 
 
 def r06c(ctx):
